@@ -5,4 +5,9 @@ QuickUids == 0..USERS
 \* reachability probes (expected to be VIOLATED)
 NeverRaw == \A u \in Slots : conn[u] = "dns"
 NeverForward == \A e \in eff : e.k # "Forward"
+\* C03: a privileged act does happen; C04: a foreign request for a live session is refused, an expired session's slot is
+\* handed out again, an expired session's own request is refused
+ProbeNoPriv == \A e \in eff : e.k \notin Privileged
+ProbeNoSpoofRefused == ~(CheckIp /\ reply = "BADIP" /\ msg.c \in DnsCmds /\ msg.uid \in Slots /\ active[msg.uid] /\ msg.src # host[msg.uid])
+ProbeNoExpiredRefusal == ~(reply = "BADIP" /\ msg.c \in DnsCmds /\ msg.uid \in Slots /\ msg.src = host[msg.uid] /\ age[msg.uid] > EXP)
 =============================================================================
